@@ -35,7 +35,7 @@ structure ProxyInfo where
 def proxyInfo (optHost : Str) (optPort : Nat) (optAuth : Option (Str × Str)) (optNoProxy : List Str) :
     ProxyInfo :=
   if !optHost.isEmpty then ⟨optHost, optPort, optAuth, optNoProxy⟩
-  else ⟨[], 0, none, optNoProxy⟩
+  else ⟨[], 0, none, if Gen.proxyInfoNoProxyAlways then optNoProxy else []⟩
 
 /-- `(phost, pport, pauth)`; `host = none` ⇒ direct. -/
 structure Choice where
@@ -52,12 +52,21 @@ def envProxyParse (v6ok : Str → Bool) (value : Str) : Except Exn Choice :=
   | .error e => .error e
   | .ok parsed =>
     let (user, pass) := Url.userinfo parsed.netloc
-    let auth := match user with               -- `if proxy.username`
-      | some u => if u.isEmpty then none else some (u, pass.getD [])
-      | none => none
-    match Url.port parsed.netloc with          -- `.port` may raise ValueError
+    -- `(unquote(username), unquote(password or "")) if proxy.username else None`;
+    -- before the repair `unquote(password)`: TypeError on None      (generated shape fact)
+    let auth : Except Exn (Option (Str × Str)) := match user with
+      | some u =>
+        if u.isEmpty then .ok none
+        else match pass with
+          | some pw => .ok (some (u, pw))
+          | none => if Gen.envProxyPasswordOrEmpty then .ok (some (u, [])) else .error (.internal "TypeError")
+      | none => .ok none
+    match auth with
     | .error e => .error e
-    | .ok p => .ok ⟨Url.hostname parsed.netloc, p, auth⟩
+    | .ok auth =>
+      match Url.port parsed.netloc with          -- `.port` may raise ValueError
+      | .error e => .error e
+      | .ok p => .ok ⟨Url.hostname parsed.netloc, p, auth⟩
 
 /-- `get_proxy_info(hostname, is_secure, proxy_host, proxy_port, proxy_auth, no_proxy)` -/
 def getProxyInfo (v6ok : Str → Bool) (hostname : Str) (secure : Bool) (p : ProxyInfo) (env : Env) :
